@@ -116,8 +116,11 @@ def oracle_eval(mod, cases, workdir, tag, use_model):
     """Returns (oracle_fail_idx, model_fail_idx). pyfail cases count as oracle failures.
     Cases may carry `oracle_vec` (a Coq `list bool` [oracle; in_model]) instead of `oracle`."""
     LAST_AUX['out_of_model'] = None
-    if cases and all(c.get('oracle_vec') for c in cases):
-        bad = fw.eval_bools(mod.oracle_imports, [c['oracle_vec'] for c in cases], workdir, tag + 'o', width=2)
+    if cases and any(c.get('oracle_vec') for c in cases):
+        # cases without a vector (direct probes) are judged by their oracle term and never leave the model
+        vecs = [c['oracle_vec'] if c.get('oracle_vec') else '[%s; true]' % (c['oracle'] if c.get('oracle') else 'true')
+                for c in cases]
+        bad = fw.eval_bools(mod.oracle_imports, vecs, workdir, tag + 'o', width=2)
         o_bad = {j // 2 for j in bad if j % 2 == 0}
         LAST_AUX['out_of_model'] = len({j // 2 for j in bad if j % 2 == 1})
     else:
